@@ -11,6 +11,12 @@
 //! * `*_safe_region` harnesses restrict a contract that is violated on the unchanged tree to the exact
 //!   region where vek is correct; the unrestricted twin is registered as known_failing.
 //! * `c17_vacuity_*` harnesses must FAIL (they assert false under a precondition family).
+//! * harnesses that exist in the sources but are NOT in harnesses.json gave no verdict within their timeout
+//!   (wide-integer complete contracts, general f32 wrap claims, everything named `c17_unregistered_*`);
+//!   `python3 mk_json.py` lists them.
+//!
+//! Tools: `mk_json.py` regenerates harnesses.json from the harness names + the metadata rules it contains;
+//! `run.py [--tier quick|thorough] [--update] [regex..]` runs registered harnesses and prints a table.
 #![allow(unused, non_snake_case)]
 use core::num::Wrapping;
 use vek::ops::*;
